@@ -11,6 +11,9 @@ Variable t_new : list val -> val.
 (* the functions these call that are not translated here (by name, receiver first): the theorems
    state what they assume of them *)
 Variable ext : string -> list val -> val.
+(* operations on the channel ends a handle holds (self.tx.send(m), self.rx.recv()): given the name,
+   the arguments and self, the result and self afterwards *)
+Variable ext_st : string -> list val -> val -> val * val.
 
 
 (* ---- /repo/src/io_loop/content_collector.rs :: State.collect_header ---- *)
@@ -45,8 +48,59 @@ let v_9 := (VBytes []) in
 | _ => next_2 tt
 end)).
 
-(* TRANSLATION FAILED for State.collect_body: expected '==', found '>=' (at token 57) *)
-Definition gen_State_collect_body : val := translation_failed.
+(* ---- /repo/src/io_loop/content_collector.rs :: State.collect_body ---- *)
+Definition gen_State_collect_body (self : val) (channel_id : val) (body : val) : val :=
+(let scrut_1 := self in
+(let next_2 := fun _ : unit =>
+(let next_3 := fun _ : unit =>
+VStuck in
+match scrut_1 with
+| VC c_ args_ =>
+  if (c_ =? "State::Start")%string then
+    match args_ with
+    | [a_4] => (VC "Err" [VC "FrameUnexpected" []])
+    | _ => next_3 tt
+    end
+  else next_3 tt
+| _ => next_3 tt
+end) in
+match scrut_1 with
+| VC c_ args_ =>
+  if (c_ =? "State::Body")%string then
+    match args_ with
+    | [a_5; a_6; a_7] => let v_8 := (v_field "body_size" a_6) in
+let buf_9 := v_append a_7 body in
+(let scrut_10 := (v_cmp (v_len buf_9) v_8) in
+(let next_11 := fun _ : unit =>
+(let next_12 := fun _ : unit =>
+(let next_13 := fun _ : unit =>
+VStuck in
+(VC "Err" [VC "FrameUnexpected" []])) in
+match scrut_10 with
+| VC c_ args_ =>
+  if (c_ =? "Ordering::Less")%string then
+    match args_ with
+    | [] => (VC "Ok" [(VC "Content::NeedMore" [(VC "State::Body" [a_5; a_6; buf_9])])])
+    | _ => next_12 tt
+    end
+  else next_12 tt
+| _ => next_12 tt
+end) in
+match scrut_10 with
+| VC c_ args_ =>
+  if (c_ =? "Ordering::Equal")%string then
+    match args_ with
+    | [] => (VC "Ok" [(VC "Content::Done" [(t_new [channel_id; a_5; buf_9; (v_field "properties" a_6)])])])
+    | _ => next_11 tt
+    end
+  else next_11 tt
+| _ => next_11 tt
+end))
+    | _ => next_2 tt
+    end
+  else next_2 tt
+| _ => next_2 tt
+end)).
 
 (* ---- /repo/src/io_loop/content_collector.rs :: ContentCollector.collect_deliver ---- *)
 Definition gen_ContentCollector_collect_deliver (self : val) (deliver : val) : val * val :=
@@ -166,30 +220,31 @@ match taken_1 with
 match tried_9 with
 | VC "Err" [err_11] => (self_2, (VC "Err" [err_11]))
 | VC "Ok" [okval_10] =>
-(let next_12 := fun _ : unit =>
+let scrut_12 := okval_10 in
 (let next_13 := fun _ : unit =>
+(let next_14 := fun _ : unit =>
 (self_2, VStuck) in
-match okval_10 with
+match scrut_12 with
 | VC c_ args_ =>
   if (c_ =? "Content::NeedMore")%string then
     match args_ with
-    | [a_14] => let self_15 := v_set "kind" (VC "Some" [(VC "Kind::Get" [a_14])]) self_2 in
-(self_15, (VC "Ok" [(VC "None" [])]))
+    | [a_15] => let self_16 := v_set "kind" (VC "Some" [(VC "Kind::Get" [a_15])]) self_2 in
+(self_16, (VC "Ok" [(VC "None" [])]))
+    | _ => next_14 tt
+    end
+  else next_14 tt
+| _ => next_14 tt
+end) in
+match scrut_12 with
+| VC c_ args_ =>
+  if (c_ =? "Content::Done")%string then
+    match args_ with
+    | [a_17] => let self_18 := v_set "kind" (VC "None" []) self_2 in
+(self_18, (VC "Ok" [(VC "Some" [(VC "CollectorResult::Get" [a_17])])]))
     | _ => next_13 tt
     end
   else next_13 tt
 | _ => next_13 tt
-end) in
-match okval_10 with
-| VC c_ args_ =>
-  if (c_ =? "Content::Done")%string then
-    match args_ with
-    | [a_16] => let self_17 := v_set "kind" (VC "None" []) self_2 in
-(self_17, (VC "Ok" [(VC "Some" [(VC "CollectorResult::Get" [a_16])])]))
-    | _ => next_12 tt
-    end
-  else next_12 tt
-| _ => next_12 tt
 end)
 | _ => (self_2, VStuck)
 end)
@@ -207,38 +262,39 @@ match taken_1 with
 | VC c_ args_ =>
   if (c_ =? "Some")%string then
     match args_ with
-    | [a_18] => match a_18 with
+    | [a_19] => match a_19 with
 | VC c_ args_ =>
   if (c_ =? "Kind::Return")%string then
     match args_ with
-    | [a_19] => (let tried_20 := (gen_State_collect_header a_19 (v_field "channel_id" self_2) header) in
-match tried_20 with
-| VC "Err" [err_22] => (self_2, (VC "Err" [err_22]))
-| VC "Ok" [okval_21] =>
-(let next_23 := fun _ : unit =>
-(let next_24 := fun _ : unit =>
+    | [a_20] => (let tried_21 := (gen_State_collect_header a_20 (v_field "channel_id" self_2) header) in
+match tried_21 with
+| VC "Err" [err_23] => (self_2, (VC "Err" [err_23]))
+| VC "Ok" [okval_22] =>
+let scrut_24 := okval_22 in
+(let next_25 := fun _ : unit =>
+(let next_26 := fun _ : unit =>
 (self_2, VStuck) in
-match okval_21 with
+match scrut_24 with
 | VC c_ args_ =>
   if (c_ =? "Content::NeedMore")%string then
     match args_ with
-    | [a_25] => let self_26 := v_set "kind" (VC "Some" [(VC "Kind::Return" [a_25])]) self_2 in
-(self_26, (VC "Ok" [(VC "None" [])]))
-    | _ => next_24 tt
+    | [a_27] => let self_28 := v_set "kind" (VC "Some" [(VC "Kind::Return" [a_27])]) self_2 in
+(self_28, (VC "Ok" [(VC "None" [])]))
+    | _ => next_26 tt
     end
-  else next_24 tt
-| _ => next_24 tt
+  else next_26 tt
+| _ => next_26 tt
 end) in
-match okval_21 with
+match scrut_24 with
 | VC c_ args_ =>
   if (c_ =? "Content::Done")%string then
     match args_ with
-    | [a_27] => let self_28 := v_set "kind" (VC "None" []) self_2 in
-(self_28, (VC "Ok" [(VC "Some" [(VC "CollectorResult::Return" [a_27])])]))
-    | _ => next_23 tt
+    | [a_29] => let self_30 := v_set "kind" (VC "None" []) self_2 in
+(self_30, (VC "Ok" [(VC "Some" [(VC "CollectorResult::Return" [a_29])])]))
+    | _ => next_25 tt
     end
-  else next_23 tt
-| _ => next_23 tt
+  else next_25 tt
+| _ => next_25 tt
 end)
 | _ => (self_2, VStuck)
 end)
@@ -256,47 +312,48 @@ match taken_1 with
 | VC c_ args_ =>
   if (c_ =? "Some")%string then
     match args_ with
-    | [a_29] => match a_29 with
+    | [a_31] => match a_31 with
 | VC c_ args_ =>
   if (c_ =? "Kind::Delivery")%string then
     match args_ with
-    | [a_30] => (let tried_31 := (gen_State_collect_header a_30 (v_field "channel_id" self_2) header) in
-match tried_31 with
-| VC "Err" [err_33] => (self_2, (VC "Err" [err_33]))
-| VC "Ok" [okval_32] =>
-(let next_34 := fun _ : unit =>
-(let next_35 := fun _ : unit =>
+    | [a_32] => (let tried_33 := (gen_State_collect_header a_32 (v_field "channel_id" self_2) header) in
+match tried_33 with
+| VC "Err" [err_35] => (self_2, (VC "Err" [err_35]))
+| VC "Ok" [okval_34] =>
+let scrut_36 := okval_34 in
+(let next_37 := fun _ : unit =>
+(let next_38 := fun _ : unit =>
 (self_2, VStuck) in
-match okval_32 with
+match scrut_36 with
 | VC c_ args_ =>
   if (c_ =? "Content::NeedMore")%string then
     match args_ with
-    | [a_36] => let self_37 := v_set "kind" (VC "Some" [(VC "Kind::Delivery" [a_36])]) self_2 in
-(self_37, (VC "Ok" [(VC "None" [])]))
-    | _ => next_35 tt
+    | [a_39] => let self_40 := v_set "kind" (VC "Some" [(VC "Kind::Delivery" [a_39])]) self_2 in
+(self_40, (VC "Ok" [(VC "None" [])]))
+    | _ => next_38 tt
     end
-  else next_35 tt
-| _ => next_35 tt
+  else next_38 tt
+| _ => next_38 tt
 end) in
-match okval_32 with
+match scrut_36 with
 | VC c_ args_ =>
   if (c_ =? "Content::Done")%string then
     match args_ with
-    | [a_38] => match a_38 with
+    | [a_41] => match a_41 with
 | VC c_ args_ =>
   if (c_ =? "tuple")%string then
     match args_ with
-    | [a_39; a_40] => let self_41 := v_set "kind" (VC "None" []) self_2 in
-(self_41, (VC "Ok" [(VC "Some" [(VC "CollectorResult::Delivery" [(VC "tuple" [a_39; a_40])])])]))
-    | _ => next_34 tt
+    | [a_42; a_43] => let self_44 := v_set "kind" (VC "None" []) self_2 in
+(self_44, (VC "Ok" [(VC "Some" [(VC "CollectorResult::Delivery" [(VC "tuple" [a_42; a_43])])])]))
+    | _ => next_37 tt
     end
-  else next_34 tt
-| _ => next_34 tt
+  else next_37 tt
+| _ => next_37 tt
 end
-    | _ => next_34 tt
+    | _ => next_37 tt
     end
-  else next_34 tt
-| _ => next_34 tt
+  else next_37 tt
+| _ => next_37 tt
 end)
 | _ => (self_2, VStuck)
 end)
@@ -338,34 +395,35 @@ match taken_1 with
 | VC c_ args_ =>
   if (c_ =? "Kind::Get")%string then
     match args_ with
-    | [a_8] => (let tried_9 := (ext "collect_body" [a_8; (v_field "channel_id" self_2); body]) in
+    | [a_8] => (let tried_9 := (gen_State_collect_body a_8 (v_field "channel_id" self_2) body) in
 match tried_9 with
 | VC "Err" [err_11] => (self_2, (VC "Err" [err_11]))
 | VC "Ok" [okval_10] =>
-(let next_12 := fun _ : unit =>
+let scrut_12 := okval_10 in
 (let next_13 := fun _ : unit =>
+(let next_14 := fun _ : unit =>
 (self_2, VStuck) in
-match okval_10 with
+match scrut_12 with
 | VC c_ args_ =>
   if (c_ =? "Content::NeedMore")%string then
     match args_ with
-    | [a_14] => let self_15 := v_set "kind" (VC "Some" [(VC "Kind::Get" [a_14])]) self_2 in
-(self_15, (VC "Ok" [(VC "None" [])]))
+    | [a_15] => let self_16 := v_set "kind" (VC "Some" [(VC "Kind::Get" [a_15])]) self_2 in
+(self_16, (VC "Ok" [(VC "None" [])]))
+    | _ => next_14 tt
+    end
+  else next_14 tt
+| _ => next_14 tt
+end) in
+match scrut_12 with
+| VC c_ args_ =>
+  if (c_ =? "Content::Done")%string then
+    match args_ with
+    | [a_17] => let self_18 := v_set "kind" (VC "None" []) self_2 in
+(self_18, (VC "Ok" [(VC "Some" [(VC "CollectorResult::Get" [a_17])])]))
     | _ => next_13 tt
     end
   else next_13 tt
 | _ => next_13 tt
-end) in
-match okval_10 with
-| VC c_ args_ =>
-  if (c_ =? "Content::Done")%string then
-    match args_ with
-    | [a_16] => let self_17 := v_set "kind" (VC "None" []) self_2 in
-(self_17, (VC "Ok" [(VC "Some" [(VC "CollectorResult::Get" [a_16])])]))
-    | _ => next_12 tt
-    end
-  else next_12 tt
-| _ => next_12 tt
 end)
 | _ => (self_2, VStuck)
 end)
@@ -383,38 +441,39 @@ match taken_1 with
 | VC c_ args_ =>
   if (c_ =? "Some")%string then
     match args_ with
-    | [a_18] => match a_18 with
+    | [a_19] => match a_19 with
 | VC c_ args_ =>
   if (c_ =? "Kind::Return")%string then
     match args_ with
-    | [a_19] => (let tried_20 := (ext "collect_body" [a_19; (v_field "channel_id" self_2); body]) in
-match tried_20 with
-| VC "Err" [err_22] => (self_2, (VC "Err" [err_22]))
-| VC "Ok" [okval_21] =>
-(let next_23 := fun _ : unit =>
-(let next_24 := fun _ : unit =>
+    | [a_20] => (let tried_21 := (gen_State_collect_body a_20 (v_field "channel_id" self_2) body) in
+match tried_21 with
+| VC "Err" [err_23] => (self_2, (VC "Err" [err_23]))
+| VC "Ok" [okval_22] =>
+let scrut_24 := okval_22 in
+(let next_25 := fun _ : unit =>
+(let next_26 := fun _ : unit =>
 (self_2, VStuck) in
-match okval_21 with
+match scrut_24 with
 | VC c_ args_ =>
   if (c_ =? "Content::NeedMore")%string then
     match args_ with
-    | [a_25] => let self_26 := v_set "kind" (VC "Some" [(VC "Kind::Return" [a_25])]) self_2 in
-(self_26, (VC "Ok" [(VC "None" [])]))
-    | _ => next_24 tt
+    | [a_27] => let self_28 := v_set "kind" (VC "Some" [(VC "Kind::Return" [a_27])]) self_2 in
+(self_28, (VC "Ok" [(VC "None" [])]))
+    | _ => next_26 tt
     end
-  else next_24 tt
-| _ => next_24 tt
+  else next_26 tt
+| _ => next_26 tt
 end) in
-match okval_21 with
+match scrut_24 with
 | VC c_ args_ =>
   if (c_ =? "Content::Done")%string then
     match args_ with
-    | [a_27] => let self_28 := v_set "kind" (VC "None" []) self_2 in
-(self_28, (VC "Ok" [(VC "Some" [(VC "CollectorResult::Return" [a_27])])]))
-    | _ => next_23 tt
+    | [a_29] => let self_30 := v_set "kind" (VC "None" []) self_2 in
+(self_30, (VC "Ok" [(VC "Some" [(VC "CollectorResult::Return" [a_29])])]))
+    | _ => next_25 tt
     end
-  else next_23 tt
-| _ => next_23 tt
+  else next_25 tt
+| _ => next_25 tt
 end)
 | _ => (self_2, VStuck)
 end)
@@ -432,47 +491,48 @@ match taken_1 with
 | VC c_ args_ =>
   if (c_ =? "Some")%string then
     match args_ with
-    | [a_29] => match a_29 with
+    | [a_31] => match a_31 with
 | VC c_ args_ =>
   if (c_ =? "Kind::Delivery")%string then
     match args_ with
-    | [a_30] => (let tried_31 := (ext "collect_body" [a_30; (v_field "channel_id" self_2); body]) in
-match tried_31 with
-| VC "Err" [err_33] => (self_2, (VC "Err" [err_33]))
-| VC "Ok" [okval_32] =>
-(let next_34 := fun _ : unit =>
-(let next_35 := fun _ : unit =>
+    | [a_32] => (let tried_33 := (gen_State_collect_body a_32 (v_field "channel_id" self_2) body) in
+match tried_33 with
+| VC "Err" [err_35] => (self_2, (VC "Err" [err_35]))
+| VC "Ok" [okval_34] =>
+let scrut_36 := okval_34 in
+(let next_37 := fun _ : unit =>
+(let next_38 := fun _ : unit =>
 (self_2, VStuck) in
-match okval_32 with
+match scrut_36 with
 | VC c_ args_ =>
   if (c_ =? "Content::NeedMore")%string then
     match args_ with
-    | [a_36] => let self_37 := v_set "kind" (VC "Some" [(VC "Kind::Delivery" [a_36])]) self_2 in
-(self_37, (VC "Ok" [(VC "None" [])]))
-    | _ => next_35 tt
+    | [a_39] => let self_40 := v_set "kind" (VC "Some" [(VC "Kind::Delivery" [a_39])]) self_2 in
+(self_40, (VC "Ok" [(VC "None" [])]))
+    | _ => next_38 tt
     end
-  else next_35 tt
-| _ => next_35 tt
+  else next_38 tt
+| _ => next_38 tt
 end) in
-match okval_32 with
+match scrut_36 with
 | VC c_ args_ =>
   if (c_ =? "Content::Done")%string then
     match args_ with
-    | [a_38] => match a_38 with
+    | [a_41] => match a_41 with
 | VC c_ args_ =>
   if (c_ =? "tuple")%string then
     match args_ with
-    | [a_39; a_40] => let self_41 := v_set "kind" (VC "None" []) self_2 in
-(self_41, (VC "Ok" [(VC "Some" [(VC "CollectorResult::Delivery" [(VC "tuple" [a_39; a_40])])])]))
-    | _ => next_34 tt
+    | [a_42; a_43] => let self_44 := v_set "kind" (VC "None" []) self_2 in
+(self_44, (VC "Ok" [(VC "Some" [(VC "CollectorResult::Delivery" [(VC "tuple" [a_42; a_43])])])]))
+    | _ => next_37 tt
     end
-  else next_34 tt
-| _ => next_34 tt
+  else next_37 tt
+| _ => next_37 tt
 end
-    | _ => next_34 tt
+    | _ => next_37 tt
     end
-  else next_34 tt
-| _ => next_34 tt
+  else next_37 tt
+| _ => next_37 tt
 end)
 | _ => (self_2, VStuck)
 end)
